@@ -1,8 +1,9 @@
 ---- MODULE MC_Clm ----
 (* Bounded instance for C03: sets of WAV sources with extra chunks before fmt, between, and after data. *)
-EXTENDS Clm, Scen
-CONSTANTS MaxFiles
-VARIABLES done
+EXTENDS Clm, Scen, Rand
+CONSTANTS MaxFiles, Seed, NRand
+VARIABLES kind, par
+vars == <<kind, par>>
 F1 == DefaultFmt
 F2 == [DefaultFmt EXCEPT !.rate = 11025]
 \* base names: "t1" "T2" "trk_0008" (8 chars) "ninechars" (9) "t1" in upper case "T1"
@@ -14,6 +15,8 @@ Layouts == << << <<>>, <<>>, <<>> >>, << <<2>>, <<>>, <<>> >>, << <<>>, <<4>>, <
 Wav(ni, dl, li, fl, f, id) == [name |-> Names[ni], fmt |-> f, fmtLen |-> fl, dataBlob |-> id, dataLen |-> dl,
                               pre |-> Layouts[li][1], mid |-> Layouts[li][2], post |-> Layouts[li][3]]
 Seqs(S, n) == [1..n -> S]
+RECURSIVE SumLens(_, _)
+SumLens(ws, k) == IF k = 0 THEN 0 ELSE ws[k].dataLen + SumLens(ws, k - 1)
 OutName == <<111,46,99,108,109>>
 Scenario(ws) ==
   LET n == Len(ws)
@@ -27,15 +30,30 @@ Scenario(ws) ==
               ELSE << ClmCreate(OutName, paths, "ok"), FileEq(OutName, ClmLayout(s)), ClmOpen(OutName, listing) >> \o per
                    \o << VolMemberErr(Len(s)) >>)
 Distinct(ixs) == \A i, j \in DOMAIN ixs : i # j => ixs[i] # ixs[j]
-Init == done = FALSE
-Next == /\ ~done /\ done' = TRUE
-        /\ \A n \in 0..MaxFiles : \A nis \in Seqs(1..Len(Names), n) : Distinct(nis) =>
-             \A dls \in Seqs(DataLens, n) : \A li \in 1..Len(Layouts) :
-               \* layout index rotates per member; fmt length alternates; format differs on the last member in one variant
-               \A variant \in {1, 2} :
-               LET ws == [i \in 1..n |-> Wav(nis[i], dls[i], ((li + i) % Len(Layouts)) + 1, IF (i + li) % 2 = 0 THEN 16 ELSE 18,
-                                              IF variant = 2 /\ i = n /\ n > 1 THEN F2 ELSE F1, i)]
-               IN /\ (~Refused(ws) => Assert(EndsWithLastData(SortCI(ws)), "ends with last data"))
-                  /\ PrintT("S|" \o ToJson([id |-> <<nis, dls, li, variant>>, steps |-> Scenario(ws)]))
-Spec == Init /\ [][Next]_done
+\* ---- one TLC state per WAV set: (name indices, data lengths, layout rotation, format variant), or a seeded random set ------------
+\* layout index rotates per member; fmt length alternates; format differs on the last member in variant 2
+WavSet(nis, dls, li, variant) ==
+  LET n == Len(nis) IN
+  [i \in 1..n |-> Wav(nis[i], dls[i], ((li + i) % Len(Layouts)) + 1, IF (i + li) % 2 = 0 THEN 16 ELSE 18,
+                       IF variant = 2 /\ i = n /\ n > 1 THEN F2 ELSE F1, i)]
+\* random sets: names of 1..9 characters over letters of both cases, digits and '_', data lengths 0..40, 0..2 extra chunks in each position
+ClmAlphabet == << 97, 98, 122, 65, 66, 90, 48, 57, 95, 101, 69 >>
+RName(r, i) == Draw(Seed * 211 + r, 10 + i, 1 + Below(Seed * 211 + r, 3, i, 9), ClmAlphabet)
+RExtras(r, i, k) == [j \in 1..Below(Seed * 211 + r, 20 + k, i, 3) |-> 2 * Below(Seed * 211 + r, 30 + k, i * 4 + j, 5)]
+RWav(r, i) == [name |-> RName(r, i), fmt |-> IF Below(Seed * 211 + r, 5, i, 12) = 0 THEN F2 ELSE F1, fmtLen |-> IF Below(Seed * 211 + r, 6, i, 2) = 0 THEN 16 ELSE 18,
+               dataBlob |-> i, dataLen |-> IF Below(Seed * 211 + r, 7, i, 5) = 0 THEN 0 ELSE Below(Seed * 211 + r, 8, i, 41),
+               pre |-> RExtras(r, i, 1), mid |-> RExtras(r, i, 2), post |-> RExtras(r, i, 3)]
+RandSet(r) == [i \in 1..Below(Seed * 211 + r, 1, 0, 6) |-> RWav(r, i)]
+Init == \/ /\ kind = "rand" /\ par \in {<<r>> : r \in 1..NRand}
+        \/ /\ kind = "set"
+           /\ \E n \in 0..MaxFiles : \E nis \in Seqs(1..Len(Names), n) : \E dls \in Seqs(DataLens, n) : \E li \in 1..Len(Layouts) : \E variant \in {1, 2} :
+                Distinct(nis) /\ par = <<nis, dls, li, variant>>
+Next == UNCHANGED vars
+Spec == Init /\ [][Next]_vars
+Set == IF kind = "rand" THEN RandSet(par[1]) ELSE WavSet(par[1], par[2], par[3], par[4])
+\* model-level laws of the layout: the file ends with the last member's data; offsets accumulate from the end of the index
+EndsWithLast == ~Refused(Set) => EndsWithLastData(SortCI(Set))
+OffsetsAccumulate == ~Refused(Set) => LET s == SortCI(Set) IN \A i \in 1..Len(s) : DataOff(s, i) = 60 + 16 * Len(s) + SumLens(s, i - 1)
+NamesAscending == ~Refused(Set) => LET s == SortCI(Set) IN \A i \in 1..(Len(s) - 1) : Less(s[i].name, s[i + 1].name)
+Export == PrintT("S|" \o ToJson([id |-> <<kind, par>>, steps |-> Scenario(Set)]))
 ====
